@@ -12,8 +12,8 @@ CONSTANTS
   KeepH = {"m1", "pc", "ch"}
   TrackH = "none"
   Tok = {0, 1}
-  MaxTx = 2
-  MaxOps = 2
+  MaxTx = 3
+  MaxOps = 1
 VIEW view
 INVARIANT TypeOK
 INVARIANT RefConsistent
